@@ -15,8 +15,9 @@ import time
 import traceback
 
 ROOT = os.path.dirname(os.path.dirname(os.path.abspath(__file__)))
-EVIDENCE_DIR = os.path.join(ROOT, "evidence")
-REPLAY_DIR = os.path.join(ROOT, "replays")
+OUT = os.environ.get("VERIF_OUT") or ROOT  # scratch runs against a worktree write elsewhere
+EVIDENCE_DIR = os.path.join(OUT, "evidence")
+REPLAY_DIR = os.path.join(OUT, "replays")
 FINDINGS_FILE = os.path.join(ROOT, "known_findings.json")
 
 MAX_SAMPLES = 6
@@ -266,7 +267,7 @@ def main(argv=None):
     os.makedirs(REPLAY_DIR, exist_ok=True)
     for i, v in enumerate(new):
         path = os.path.join("replays", f"{args.prop}-{i}.json")
-        with open(os.path.join(ROOT, path), "w") as f:
+        with open(os.path.join(OUT, path), "w") as f:
             json.dump({"property": args.prop, "oracle": v["oracle"], "sig": v["sig"], "msg": v["msg"],
                        "replay": v["replay"]}, f, indent=1, default=str)
             f.write("\n")
@@ -276,7 +277,7 @@ def main(argv=None):
     path = write_evidence(ctx, level, len(new), wall)
     print(f"[{args.prop}] tier={args.tier} evaluations={ctx.counts.get('evaluations', 0)} "
           f"distinct={len(ctx.sets.get('distinct', ()))} states={len(ctx.sets.get('states', ()))} "
-          f"violations={len(new)} known={len(known)} caps={ctx.caps} wall={wall:.1f}s evidence={os.path.relpath(path, ROOT)}")
+          f"violations={len(new)} known={len(known)} caps={ctx.caps} wall={wall:.1f}s evidence={os.path.relpath(path, OUT)}")
     return 1 if new else 0
 
 
